@@ -106,3 +106,15 @@ package data
 //@   ensures this.Type() == schema.ItemTypeString ==> is(result, string)
 //@   ensures this.Type() == schema.ItemTypeFloat ==> is(result, float64)
 //@   ensures this.Type() == schema.ItemTypeBoolean ==> is(result, bool)
+
+// Storing through the locator and item interfaces is one Call event per stored variable / data object, so that the
+// token loop's contract can count that every result field and every data output of an answer is stored (C08).
+//@ func IFlowDataLocator.SetVariable
+//@   assumed
+//@   modifies mapof(map[string]IItem), fresh schema.Value.ItemType, fresh schema.Value.ItemValue
+//@   flag allocs
+//@   emits Call(code("data|IFlowDataLocator.SetVariable"), this)
+//@ func IItemAware.Put
+//@   assumed
+//@   modifies nothing
+//@   emits Call(code("data|IItemAware.Put"), this)
